@@ -36,6 +36,12 @@ NEEDS = {
  "c14-r": ("`WeakValueDictionary` from `id(input graph)` to the canonical result", "input graph freed while its result stays alive, a new graph of equal atom/bond counts allocated at the same address"),
  "c12-h": ("serialize leaves a slim 'canonical form' in `m.graph`; canonicalize has a fast path returning a copy of it", "serialize(g) then canonicalize(g) (or of a copy): charges, coordinates, bond types are gone"),
  "c16-h": ("retry path picks atoms to swap from a set of string tuples", "small symmetric molecule whose first shuffle needs a retry; two processes with different hash seeds"),
+ "c14-s": ("V2000 atom line ORs the isotope mass into the dict taken from the module-level charge-code table", "a V2000 file with a D/T atom that has an atom-block charge, then any V2000 file using the same charge code"),
+ "c14-t": ("free-list of idle lexer/parser pairs; a semantically rejected string hands its parser back twice", "an earlier semantic reject (self-loop, duplicate attribute, unknown index), then two threads parsing at once"),
+ "c12-i": ("one-pass relabel that moves atoms by position but bond endpoints by old label", "canonicalize a graph whose insertion order differs from its label order (e.g. an already canonicalized graph)"),
+ "c12-j": ("three harmless-looking shortcuts: return `m` when labels are final, return `m` when sorted, shift labels to 1-based in place", "a molecule whose atoms are all inequivalent and already sorted (He, HCl, ...): serialize renames the caller's atoms"),
+ "c16-i": ("as c16-b (independent rediscovery, frozenset of oriented edges)", "as c16-b"),
+ "c16-j": ("private `random.Random(seed)` for the first shuffle only; retries still use the global generator", "a retry (small symmetric molecule) and a different global RNG state"),
 }
 print("| seeded change | what it does | needs in order to manifest | tests / demo | reported by (quick tier, VERIF_SEED=1) |")
 print("|---|---|---|---|---|")
